@@ -242,6 +242,16 @@ func lockstepCase(c *ev.Case) {
 		p := rng.Intn(100)
 		switch {
 		case p < 30:
+			if rng.Chance(1, 60) {
+				// fault path: a value whose word index overflows every possible allocation
+				x := []uint{^uint(0), ^uint(0) - 64, 1 << 63, 1 << 60}[rng.Intn(4)]
+				for _, sub := range []*subject{g.b, g.m, g.d} {
+					if sub != nil && !sub.addHuge(x) {
+						return
+					}
+				}
+				continue
+			}
 			if !g.add(genVal(rng, g.u)) {
 				return
 			}
